@@ -51,7 +51,7 @@ fn full_image_loads(img: &[u8]) {
     core::mem::forget(r);
 }
 
-//@ c09_matrix_all_prefixes {"tier":"thorough","core":false,"desc":"every strict prefix of a matrix-connector dictionary image is rejected with an error, no panic","bounds":"359-byte image (2 words, 2x2 matrix, 3-entry char table, 2 unk entries); truncation point 0..358","symbolic":"the truncation point","functions":["Dictionary::read","Dictionary::read_common","bincode::decode_from_std_read","Trie::decode","DictionaryInner::decode"],"fs":5000,"unwind":24,"unwindset":["memcmp:24"],"timeout":5400,"mem_gb":28,"cbmc_args":["--paths","lifo"],"stubs":["alloc::fmt::format"]}
+// (not registered: one symbolic cut point over the whole image forks at every read; 90 min of path exploration gave no verdict - replaced by the 16-byte window harnesses) c09_matrix_all_prefixes {"tier":"thorough","core":false,"desc":"every strict prefix of a matrix-connector dictionary image is rejected with an error, no panic","bounds":"359-byte image (2 words, 2x2 matrix, 3-entry char table, 2 unk entries); truncation point 0..358","symbolic":"the truncation point","functions":["Dictionary::read","Dictionary::read_common","bincode::decode_from_std_read","Trie::decode","DictionaryInner::decode"],"fs":5000,"unwind":24,"unwindset":["memcmp:24"],"timeout":5400,"mem_gb":28,"cbmc_args":["--paths","lifo"],"stubs":["alloc::fmt::format"]}
 #[cfg(kani)]
 #[kani::proof]
 #[kani::stub(alloc::fmt::format, crate::c06::stub_format)]
@@ -128,7 +128,7 @@ fn c09_matrix_full_loads() {
     full_image_loads(&gen::IMG_MATRIX)
 }
 
-//@ c09_raw_all_prefixes {"tier":"thorough","core":false,"desc":"every strict prefix of a raw-connector dictionary image (scorer arrays, 8-lane feature rows) is rejected","bounds":"547-byte image; truncation point 0..546","symbolic":"the truncation point","functions":["Dictionary::read","Scorer::decode","U31x8::decode","U31::decode"],"fs":5000,"unwind":24,"unwindset":["memcmp:24"],"timeout":5400,"mem_gb":28,"cbmc_args":["--paths","lifo"],"stubs":["alloc::fmt::format"]}
+// (not registered: one symbolic cut point over the whole image forks at every read; 90 min of path exploration gave no verdict - replaced by the 16-byte window harnesses) c09_raw_all_prefixes {"tier":"thorough","core":false,"desc":"every strict prefix of a raw-connector dictionary image (scorer arrays, 8-lane feature rows) is rejected","bounds":"547-byte image; truncation point 0..546","symbolic":"the truncation point","functions":["Dictionary::read","Scorer::decode","U31x8::decode","U31::decode"],"fs":5000,"unwind":24,"unwindset":["memcmp:24"],"timeout":5400,"mem_gb":28,"cbmc_args":["--paths","lifo"],"stubs":["alloc::fmt::format"]}
 #[cfg(kani)]
 #[kani::proof]
 #[kani::stub(alloc::fmt::format, crate::c06::stub_format)]
@@ -137,7 +137,7 @@ fn c09_raw_all_prefixes() {
     truncated(&gen::IMG_RAW, 0, gen::IMG_RAW.len())
 }
 
-//@ c09_dual_user_all_prefixes {"tier":"thorough","core":false,"desc":"every strict prefix of a dual-connector image with a user lexicon is rejected","bounds":"695-byte image; truncation point 0..694","symbolic":"the truncation point","functions":["Dictionary::read","DualConnector::decode","Scorer::decode"],"fs":5000,"unwind":24,"unwindset":["memcmp:24"],"timeout":5400,"mem_gb":28,"cbmc_args":["--paths","lifo"],"stubs":["alloc::fmt::format"]}
+// (not registered: one symbolic cut point over the whole image forks at every read; 90 min of path exploration gave no verdict - replaced by the 16-byte window harnesses) c09_dual_user_all_prefixes {"tier":"thorough","core":false,"desc":"every strict prefix of a dual-connector image with a user lexicon is rejected","bounds":"695-byte image; truncation point 0..694","symbolic":"the truncation point","functions":["Dictionary::read","DualConnector::decode","Scorer::decode"],"fs":5000,"unwind":24,"unwindset":["memcmp:24"],"timeout":5400,"mem_gb":28,"cbmc_args":["--paths","lifo"],"stubs":["alloc::fmt::format"]}
 #[cfg(kani)]
 #[kani::proof]
 #[kani::stub(alloc::fmt::format, crate::c06::stub_format)]
@@ -146,7 +146,7 @@ fn c09_dual_user_all_prefixes() {
     truncated(&gen::IMG_DUAL, 0, gen::IMG_DUAL.len())
 }
 
-//@ c09_mapped_user_all_prefixes {"tier":"thorough","core":false,"desc":"every strict prefix of an image with user lexicon and stored id mapper is rejected","bounds":"483-byte image","symbolic":"the truncation point","functions":["Dictionary::read","ConnIdMapper::decode"],"fs":5000,"unwind":24,"unwindset":["memcmp:24"],"timeout":5400,"mem_gb":28,"cbmc_args":["--paths","lifo"],"stubs":["alloc::fmt::format"]}
+// (not registered: one symbolic cut point over the whole image forks at every read; 90 min of path exploration gave no verdict - replaced by the 16-byte window harnesses) c09_mapped_user_all_prefixes {"tier":"thorough","core":false,"desc":"every strict prefix of an image with user lexicon and stored id mapper is rejected","bounds":"483-byte image","symbolic":"the truncation point","functions":["Dictionary::read","ConnIdMapper::decode"],"fs":5000,"unwind":24,"unwindset":["memcmp:24"],"timeout":5400,"mem_gb":28,"cbmc_args":["--paths","lifo"],"stubs":["alloc::fmt::format"]}
 #[cfg(kani)]
 #[kani::proof]
 #[kani::stub(alloc::fmt::format, crate::c06::stub_format)]
@@ -181,7 +181,7 @@ fn c09_foreign_magic() {
     core::mem::forget(r);
 }
 
-//@ c09_header_truncated {"tier":"thorough","core":false,"desc":"every image cut inside the magic header (0..20 bytes) is rejected","bounds":"truncation point 0..20 of the 359-byte matrix image","symbolic":"the truncation point","functions":["Dictionary::read","Dictionary::read_common"],"fs":5000,"unwind":24,"unwindset":["memcmp:24"],"timeout":3600,"mem_gb":24,"cbmc_args":["--paths","lifo"],"stubs":["alloc::fmt::format"]}
+// (not registered: one symbolic cut point over the whole image forks at every read; 90 min of path exploration gave no verdict - replaced by the 16-byte window harnesses) c09_header_truncated {"tier":"thorough","core":false,"desc":"every image cut inside the magic header (0..20 bytes) is rejected","bounds":"truncation point 0..20 of the 359-byte matrix image","symbolic":"the truncation point","functions":["Dictionary::read","Dictionary::read_common"],"fs":5000,"unwind":24,"unwindset":["memcmp:24"],"timeout":3600,"mem_gb":24,"cbmc_args":["--paths","lifo"],"stubs":["alloc::fmt::format"]}
 #[cfg(kani)]
 #[kani::proof]
 #[kani::stub(alloc::fmt::format, crate::c06::stub_format)]
